@@ -96,6 +96,11 @@ fn fill(c: &mut CmdSpec, st: &mut Rng, ct: &mut Rng, hostile: bool, names_too: b
     }
 }
 
+/// fill every descriptive-text slot (not names) with benign or adversarial text of identical line structure
+pub fn fill_pub(c: &mut CmdSpec, seed: u64, hostile: bool) {
+    fill(c, &mut Rng::new(seed), &mut Rng::new(seed ^ if hostile { 2 } else { 1 }), hostile, false);
+}
+
 /// (request, argc) multiset of control lines
 fn control_lines(page: &str) -> BTreeMap<(String, usize), usize> {
     let mut m = BTreeMap::new();
@@ -217,6 +222,8 @@ pub fn case(seed: u64, st: &mut Stats) {
     // mention / omission on the benign variant
     for (path, page) in &pb {
         let Some(c) = find(&benign, path) else { continue };
+        // roff text escapes hyphens
+        let page = &page.replace("\\-", "-");
         for a in &c.args {
             if matches!(a.act(), Act::Help | Act::HelpShort | Act::HelpLong | Act::Version) {
                 continue;
